@@ -18,7 +18,9 @@ structure DirInv (cs cr : Chan) (hs hr : Hist) (fwd back : List Msg) : Prop wher
   pre : ∃ rest, tag (dataOuts hr.dl) ++ tag cr.recvBuf ++ rest = tag hs.wr
   acct : ((bufBytes (dataOf fwd) + cs.sendWindow + bufBytes cr.recvBuf + adjustSum back : Nat) : Int)
           ≤ cr.recvWindow
-  acctEq : ¬ SendLate cr →
+  /-- with equality as long as the receiver's own CLOSE is not out (since fix ae15f0e also after its application
+      closed: what it drops or discards from then on is given back as WINDOW_ADJUST at once) -/
+  acctEq : cr.sendChanOpen = true →
     ((bufBytes (dataOf fwd) + cs.sendWindow + bufBytes cr.recvBuf + adjustSum back : Nat) : Int) = cr.recvWindow
 
 /-- the write history after an event -/
@@ -116,6 +118,14 @@ theorem dir_sender {cs cs' cr : Chan} {hs hs' hr : Hist} {fwd backFull back' ms 
 theorem evRecvTag_other {ev : Ev} {c : Chan} (h1 : ev ≠ .close) (h2 : ∀ dt bs, ev ≠ .recv (.data dt bs)) :
     evRecvTag ev c = tag c.recvBuf := by
   unfold evRecvTag
+  split
+  · rename_i dt bs; exact absurd rfl (h2 dt bs)
+  · exact absurd rfl h1
+  · rfl
+
+theorem evCredit_other {ev : Ev} {c : Chan} (h1 : ev ≠ .close) (h2 : ∀ dt bs, ev ≠ .recv (.data dt bs)) :
+    evCredit ev c = 0 := by
+  unfold evCredit
   split
   · rename_i dt bs; exact absurd rfl (h2 dt bs)
   · exact absurd rfl h1
@@ -235,52 +245,70 @@ theorem dir_receiver {cs cr cr' : Chan} {hs hr hr' : Hist} {fwdFull fwd' back ms
     · cases m with
       | data dt bs =>
         simp only [dataOf, bufBytes] at hold
-        simp only [evRecvTag] at hq
-        split at hq
-        · simp only [← bufBytes_eq] at hq; push_cast at hold hge ⊢; omega
-        · simp only [List.length_append, ← bufBytes_eq, tag_cons, tag_nil, List.append_nil, List.length_map] at hq
+        by_cases hsl : cr.sendState = .closePending ∨ cr.sendState = .closed
+        · -- dropped: the bytes leave the link and their window goes back (at most) as WINDOW_ADJUST
+          simp only [evRecvTag, evCredit, hsl, if_true, ← bufBytes_eq] at hq hge
+          push_cast at hold hge ⊢; omega
+        · simp only [evRecvTag, evCredit, hsl, if_false, List.length_append, ← bufBytes_eq, tag_cons, tag_nil,
+            List.append_nil, List.length_map] at hq hge
           push_cast at hold hge ⊢; omega
       | adjust n =>
         rw [evRecvTag_other (by intro h; cases h) (by intro dt bs h; cases h), ← bufBytes_eq] at hq
+        rw [evCredit_other (by intro h; cases h) (by intro dt bs h; cases h)] at hge
         simp only [dataOf] at hold; push_cast at hold hge ⊢; omega
       | eof =>
         rw [evRecvTag_other (by intro h; cases h) (by intro dt bs h; cases h), ← bufBytes_eq] at hq
+        rw [evCredit_other (by intro h; cases h) (by intro dt bs h; cases h)] at hge
         simp only [dataOf] at hold; push_cast at hold hge ⊢; omega
       | close =>
         rw [evRecvTag_other (by intro h; cases h) (by intro dt bs h; cases h), ← bufBytes_eq] at hq
+        rw [evCredit_other (by intro h; cases h) (by intro dt bs h; cases h)] at hge
         simp only [dataOf] at hold; push_cast at hold hge ⊢; omega
     · by_cases hcl : ev = .close
       · subst hcl
+        -- the buffer is discarded and its window goes back (at most) as WINDOW_ADJUST
         simp only [evRecvTag, List.length_nil] at hq
+        simp only [evCredit] at hge
         push_cast at hold hge ⊢; omega
       · rw [evRecvTag_other hcl (by intro dt bs h; exact hne _ h), ← bufBytes_eq] at hq
+        rw [evCredit_other hcl (by intro dt bs h; exact hne _ h)] at hge
         push_cast at hold hge ⊢; omega
-  · -- window accounting (equality while the receiver neither drops data nor WINDOW_ADJUSTs)
-    intro hnl'
-    have hnl : ¬ SendLate cr := fun h => hnl' (hlate.1 h)
-    have hncl : ev ≠ .close := fun h => hnl' (hlate.2 h)
-    have heq := ss.winEq (not_sendLate_open hwf'.s hnl')
-    have hold := hd.acctEq hnl
+  · -- window accounting (equality while the receiver's CLOSE is not out: every byte it accepts is delivered,
+    -- buffered, or — dropped / discarded after its application closed — given back as WINDOW_ADJUST at once)
+    intro hop'
+    have heq := ss.winEq hop'
+    have hold := hd.acctEq (ss.openMono hop')
     rw [adjustSum_append]
     rcases hfwd with ⟨m, rfl, rfl⟩ | ⟨hne, rfl⟩
     · cases m with
       | data dt bs =>
         simp only [dataOf, bufBytes] at hold
-        unfold SendLate at hnl
-        simp only [evRecvTag, hnl, if_false, List.length_append, ← bufBytes_eq, tag_cons, tag_nil, List.append_nil,
-          List.length_map] at hq
-        push_cast at hold heq ⊢; omega
+        by_cases hsl : cr.sendState = .closePending ∨ cr.sendState = .closed
+        · simp only [evRecvTag, evCredit, hsl, if_true, ← bufBytes_eq] at hq heq
+          push_cast at hold heq ⊢; omega
+        · simp only [evRecvTag, evCredit, hsl, if_false, List.length_append, ← bufBytes_eq, tag_cons, tag_nil,
+            List.append_nil, List.length_map] at hq heq
+          push_cast at hold heq ⊢; omega
       | adjust n =>
         rw [evRecvTag_other (by intro h; cases h) (by intro dt bs h; cases h), ← bufBytes_eq] at hq
+        rw [evCredit_other (by intro h; cases h) (by intro dt bs h; cases h)] at heq
         simp only [dataOf] at hold; push_cast at hold heq ⊢; omega
       | eof =>
         rw [evRecvTag_other (by intro h; cases h) (by intro dt bs h; cases h), ← bufBytes_eq] at hq
+        rw [evCredit_other (by intro h; cases h) (by intro dt bs h; cases h)] at heq
         simp only [dataOf] at hold; push_cast at hold heq ⊢; omega
       | close =>
         rw [evRecvTag_other (by intro h; cases h) (by intro dt bs h; cases h), ← bufBytes_eq] at hq
+        rw [evCredit_other (by intro h; cases h) (by intro dt bs h; cases h)] at heq
         simp only [dataOf] at hold; push_cast at hold heq ⊢; omega
-    · rw [evRecvTag_other hncl (by intro dt bs h; exact hne _ h), ← bufBytes_eq] at hq
-      push_cast at hold heq ⊢; omega
+    · by_cases hcl : ev = .close
+      · subst hcl
+        simp only [evRecvTag, List.length_nil] at hq
+        simp only [evCredit] at heq
+        push_cast at hold heq ⊢; omega
+      · rw [evRecvTag_other hcl (by intro dt bs h; exact hne _ h), ← bufBytes_eq] at hq
+        rw [evCredit_other hcl (by intro dt bs h; exact hne _ h)] at heq
+        push_cast at hold heq ⊢; omega
 
 /-! ### the composition -/
 
